@@ -260,6 +260,8 @@ def cli_cases(draw):
     L = d["laststep"]
     outs = draw(st.lists(st.sampled_from([0, 1, 2, 3, 7, max(1, L), L + 3]), min_size=2, max_size=3, unique=True))
     o["SavePhaseSpace"] = draw(st.sampled_from([0, 1]))
+    if draw(st.booleans()):
+        o["verbose"] = True       # what is logged must not touch what is recorded (round-9 seed C19i drains the records for a log line)
     return dict(opts=o, outsteps=outs, prng=draw(st.integers(1, 2**31 - 1)))
 
 
